@@ -70,6 +70,14 @@ func (f FuncDesc) funcType() (reflect.Type, bool) {
 		}
 	case "firstnotctx":
 		in[0] = reflect.TypeOf(0)
+	case "firstimplctx":
+		// a type that implements context.Context without being it: a wrapper can
+		// only supply a plain context.Context
+		in[0] = reflect.TypeOf(ctxStruct{})
+	case "firstptrctx":
+		in[0] = reflect.TypeOf(&ctxStruct{})
+	case "firstwiderctx":
+		in[0] = reflect.TypeOf((*widerCtx)(nil)).Elem()
 	case "variadic":
 		in = []reflect.Type{ctxType, reflect.SliceOf(reflect.TypeOf(0))}
 		variadic = true
@@ -81,6 +89,13 @@ func (f FuncDesc) funcType() (reflect.Type, bool) {
 		out = []reflect.Type{reflect.TypeOf(0), reflect.TypeOf("")}
 	}
 	return reflect.FuncOf(in, out, variadic), variadic
+}
+
+type ctxStruct struct{ context.Context }
+
+type widerCtx interface {
+	context.Context
+	Extra()
 }
 
 // refCheck: does the documented list of signature schemes accept it?
@@ -610,7 +625,7 @@ func elemFor(t *rapid.T, st reflect.Type, name string) string {
 
 func genCase(t *rapid.T) Case {
 	c := Case{}
-	shape := rapid.SampledFrom([]string{"ok", "ok", "ok", "ok", "ok", "ok", "ok", "ok", "ok", "ok", "ok", "ok", "nil", "nonfunc", "noparams", "threeparams", "firstnotctx", "variadic", "noresults", "threeresults", "secondnoterr"}).Draw(t, "shape")
+	shape := rapid.SampledFrom([]string{"ok", "ok", "ok", "ok", "ok", "ok", "ok", "ok", "ok", "ok", "ok", "ok", "nil", "nonfunc", "noparams", "threeparams", "firstnotctx", "firstimplctx", "firstptrctx", "firstwiderctx", "variadic", "noresults", "threeresults", "secondnoterr"}).Draw(t, "shape")
 	c.Fn.Shape = shape
 	switch rapid.IntRange(0, 5).Draw(t, "argk") {
 	case 0:
@@ -665,7 +680,7 @@ func genCase(t *rapid.T) Case {
 
 var parts = []engine.AnyPart{
 	engine.Part[Case]{Name: "triples", Run: run, Gen: genCase,
-		Rule: "(function type, options, params) triples: function types from a grammar (no parameter / *jrpc2.Request / scalars, slices, fixed arrays, map[string]T, json.RawMessage, any, pointers, structs made with reflect.StructOf with tagged / untagged / json:\"-\" / omitempty / unexported fields, and 8 hand-declared types with embedded fields, custom UnmarshalJSON / UnmarshalText, value- and pointer-receiver DisallowUnknownFields; results error / Y / (Y, error); 9 invalid shapes), function values made with reflect.MakeFunc that record their calls, SetStrict x AllowArray in {unset,true,false}, params derived from the type (matching object, matching array, arrays one short / one long / with a wrong element, unknown keys, null, absent, unrelated JSON); oracle = the documented signature schemes for Check and encoding/json applied directly to the declared type after an independently computed array-to-field mapping; non-trivial = struct / pointer / named parameter, or array-form params, or SetStrict(true); distinct = the case"},
+		Rule: "(function type, options, params) triples: function types from a grammar (no parameter / *jrpc2.Request / scalars, slices, fixed arrays, map[string]T, json.RawMessage, any, pointers, structs made with reflect.StructOf with tagged / untagged / json:\"-\" / omitempty / unexported fields, and 8 hand-declared types with embedded fields, custom UnmarshalJSON / UnmarshalText, value- and pointer-receiver DisallowUnknownFields; results error / Y / (Y, error); 12 invalid shapes), function values made with reflect.MakeFunc that record their calls, SetStrict x AllowArray in {unset,true,false}, params derived from the type (matching object, matching array, arrays one short / one long / with a wrong element, unknown keys, null, absent, unrelated JSON); oracle = the documented signature schemes for Check and encoding/json applied directly to the declared type after an independently computed array-to-field mapping; non-trivial = struct / pointer / named parameter, or array-form params, or SetStrict(true); distinct = the case"},
 }
 
 func TestProp(t *testing.T)   { engine.RunParts(t, "C15", parts) }
